@@ -7,6 +7,7 @@
 package main
 
 import (
+	"database/sql"
 	"encoding/hex"
 	"encoding/json"
 	"flag"
@@ -38,6 +39,7 @@ type Summary struct {
 	ScanListings     int            `json:"complete_scan_listings_compared"`
 	ErrorPathRepeats int            `json:"error_path_requests_repeated"`
 	BlockSequences   int            `json:"block_sequences"`
+	BlockedStorage   int            `json:"blocked_storage_scenarios"`
 	SQLCompared      int            `json:"requests_whose_statements_were_compared_with_the_api_calls"`
 	FailingInBlock   int            `json:"catalogue_of_commands_failing_inside_a_block"`
 	KeywordKeys      int            `json:"requests_on_keys_named_like_keywords"`
@@ -411,6 +413,9 @@ func runC14(seed int64, n int, grams []*hx.CmdGrammar) {
 		}
 		tc.Close()
 	}
+	if len(sum.Failures) == 0 {
+		c14BlockedStorage()
+	}
 	if len(sum.Failures) == 0 && !srv.Alive() {
 		fail("c14-server-down", "the server is not alive at the end of the run", history)
 	}
@@ -419,6 +424,99 @@ func runC14(seed int64, n int, grams []*hx.CmdGrammar) {
 	}
 	c.Close()
 	sum.Scripts = sent
+}
+
+// c14BlockedStorage: a server on a database FILE whose write lock is held by someone else for
+// longer than the busy timeout.  A write and an EXEC of a queued block cannot start their
+// transaction: each is answered with ONE complete reply (an error, or an array), and the
+// connection stays in step.
+func c14BlockedStorage() {
+	dir, err := os.MkdirTemp("", "wirerun-c14b-")
+	if err != nil {
+		return
+	}
+	defer os.RemoveAll(dir)
+	path := filepath.Join(dir, "blocked.db")
+	srv, err := hx.StartServer(path)
+	if err != nil {
+		fail("harness", err.Error(), nil)
+		return
+	}
+	defer srv.Stop()
+	c, err := hx.Dial(srv.Addr)
+	if err != nil {
+		fail("harness", err.Error(), nil)
+		return
+	}
+	defer c.Close()
+	var hist [][]string
+	do := func(timeout time.Duration, args ...string) (hx.RV, bool) {
+		hist = append(hist, args)
+		if err := c.Send(toBytes(args)); err != nil {
+			fail("c14-send", err.Error(), hist)
+			return hx.RV{}, false
+		}
+		v, err := c.Recv(timeout)
+		if err != nil {
+			fail("c14-no-reply", "while another process holds the database's write lock: no complete well-formed reply to "+q(args)+": "+err.Error(), hist)
+			return hx.RV{}, false
+		}
+		return v, true
+	}
+	if _, ok := do(5*time.Second, "SET", "a", "0"); !ok {
+		return
+	}
+	raw, err := sql.Open("sqlite3", path+"?_busy_timeout=100")
+	if err != nil {
+		return
+	}
+	defer raw.Close()
+	raw.SetMaxOpenConns(1)
+	if _, err := raw.Exec("BEGIN IMMEDIATE"); err != nil {
+		return // the lock could not be taken: nothing learnt
+	}
+	released := false
+	defer func() {
+		if !released {
+			_, _ = raw.Exec("ROLLBACK")
+		}
+	}()
+	for _, st := range [][]string{{"MULTI"}, {"SET", "a", "1"}, {"INCR", "b"}} {
+		if _, ok := do(5*time.Second, st...); !ok {
+			return
+		}
+	}
+	ex, ok := do(20*time.Second, "EXEC")
+	if !ok {
+		return
+	}
+	sum.Handled++
+	if ex.Kind != '*' && ex.Kind != '-' {
+		fail("c14-reply", "EXEC of a block that could not start its transaction answered "+ex.Verbose(), hist)
+		return
+	}
+	p, ok := do(5*time.Second, "PING", "after-blocked-exec")
+	if ok && (p.Kind != '$' || string(p.Str) != "after-blocked-exec") {
+		fail("c14-out-of-step", "after an EXEC that could not start its transaction (reply "+ex.Verbose()+") the sentinel PING was answered with "+p.Verbose()+": the connection is out of step", hist)
+		return
+	}
+	w, ok := do(20*time.Second, "SET", "a", "2")
+	if !ok {
+		return
+	}
+	sum.Handled++
+	if w.Kind != '-' && w.Kind != '+' {
+		fail("c14-reply", "a write that could not start its transaction answered "+w.Verbose(), hist)
+		return
+	}
+	_, _ = raw.Exec("ROLLBACK")
+	released = true
+	if v, ok := do(5*time.Second, "GET", "a"); ok && !(v.Kind == '$' && string(v.Str) == "0") {
+		if !(w.Kind == '+' && string(v.Str) == "2") {
+			fail("c14-reply", "after the blocked block and write (answered "+ex.Canon()+" and "+w.Canon()+") the key holds "+v.Verbose(), hist)
+		}
+	}
+	sum.BlockedStorage++
 }
 
 func c14Large(c *hx.Client, newConn func() *hx.Client, grams []*hx.CmdGrammar, history *[][]string, srv *hx.Server) {
@@ -487,6 +585,20 @@ func c14Large(c *hx.Client, newConn func() *hx.Client, grams []*hx.CmdGrammar, h
 		{"ZREVRANGEBYSCORE bigz +inf -inf LIMIT 0 maxint", []string{"ZREVRANGEBYSCORE", "bigz", "+inf", "-inf", "LIMIT", "0", "9223372036854775807"}},
 		{"ZRANGE bigz -inf +inf BYSCORE LIMIT maxint maxint", []string{"ZRANGE", "bigz", "-inf", "+inf", "BYSCORE", "LIMIT", "9223372036854775807", "9223372036854775807"}},
 		{"ZRANGE bigz 0 maxint", []string{"ZRANGE", "bigz", "0", "9223372036854775807"}},
+		// an offset beyond the number of matches, with no count / a zero count / a negative count
+		{"ZADD smallz 1 a 2 b 3 c", []string{"ZADD", "smallz", "1", "a", "2", "b", "3", "c"}},
+		{"ZRANGEBYSCORE smallz -inf +inf LIMIT 5 0", []string{"ZRANGEBYSCORE", "smallz", "-inf", "+inf", "LIMIT", "5", "0"}},
+		{"ZRANGEBYSCORE smallz -inf +inf LIMIT 5 -1", []string{"ZRANGEBYSCORE", "smallz", "-inf", "+inf", "LIMIT", "5", "-1"}},
+		{"ZREVRANGEBYSCORE smallz +inf -inf LIMIT 4 -1", []string{"ZREVRANGEBYSCORE", "smallz", "+inf", "-inf", "LIMIT", "4", "-1"}},
+		{"ZRANGE smallz -inf +inf BYSCORE LIMIT 7 0", []string{"ZRANGE", "smallz", "-inf", "+inf", "BYSCORE", "LIMIT", "7", "0"}},
+		{"ZRANGE smallz -inf +inf BYSCORE REV LIMIT 7 -1", []string{"ZRANGE", "smallz", "-inf", "+inf", "BYSCORE", "REV", "LIMIT", "7", "-1"}},
+		{"ZRANGEBYSCORE smallz 2 1", []string{"ZRANGEBYSCORE", "smallz", "2", "1"}},
+		{"ZRANGEBYSCORE smallz inf -inf", []string{"ZRANGEBYSCORE", "smallz", "inf", "-inf"}},
+		{"ZRANGE smallz 5 1", []string{"ZRANGE", "smallz", "5", "1"}},
+		{"LRANGE biglist 5 1", []string{"LRANGE", "biglist", "5", "1"}},
+		{"ZCOUNT smallz 2 1", []string{"ZCOUNT", "smallz", "2", "1"}},
+		{"ZREMRANGEBYSCORE smallz 2 1", []string{"ZREMRANGEBYSCORE", "smallz", "2", "1"}},
+		{"ZREMRANGEBYRANK smallz 5 1", []string{"ZREMRANGEBYRANK", "smallz", "5", "1"}},
 		{"ZRANGEBYSCORE nokey -inf +inf LIMIT 0 maxint", []string{"ZRANGEBYSCORE", "nokey", "-inf", "+inf", "LIMIT", "0", "9223372036854775807"}},
 		{"SCAN 0 COUNT maxint", []string{"SCAN", "0", "COUNT", "9223372036854775807"}},
 		{"SSCAN bigset 0 COUNT maxint", []string{"SSCAN", "bigset", "0", "COUNT", "9223372036854775807"}},
@@ -851,6 +963,42 @@ func runC15(seed int64, n int) {
 				}
 			}
 		}
+	}
+
+	// a connection that dies inside MULTI leaves nothing to the connections accepted after it
+	for round := 0; round < 30 && len(sum.Failures) == 0; round++ {
+		id++
+		sid := strconv.Itoa(id)
+		a, err := hx.Dial(srv.Addr)
+		if err != nil {
+			fail("c15-connect", err.Error(), nil)
+			break
+		}
+		_, _ = a.Do("MULTI")
+		for i := 0; i < round%3; i++ {
+			_, _ = a.Do("INCR", "c"+sid)
+		}
+		a.Close()
+		time.Sleep(2 * time.Millisecond)
+		for k := 0; k < 3; k++ {
+			b, err := hx.Dial(srv.Addr)
+			if err != nil {
+				fail("c15-connect", err.Error(), nil)
+				break
+			}
+			v, err := b.Do("INCR", "c"+sid)
+			if err != nil || v.Kind != ':' || v.Int != int64(k+1) {
+				fail("c15-reply", fmt.Sprintf("a connection accepted after another one had died inside MULTI: INCR answered %s, a fresh connection is not in MULTI mode (expected :%d)", v.Verbose(), k+1), nil)
+				b.Close()
+				break
+			}
+			e, _ := b.Do("EXEC")
+			if e.Kind != '-' {
+				fail("c15-reply", "a connection accepted after another one had died inside MULTI: EXEC without MULTI answered "+e.Verbose(), nil)
+			}
+			b.Close()
+		}
+		sum.Scripts++
 	}
 
 	// two connections interleaved: A queues a block while B runs commands
